@@ -40,6 +40,40 @@ PoolIns(r) == LET s == [unspent |-> UxSet(r.st)] IN UNION { Rng(r.pool[i].ins) :
 Incoming(r, s, a) == UNION { { [id |-> r.pool[i].outs[k].id, addr |-> a, coins |-> r.pool[i].outs[k].coins, hours |-> r.pool[i].outs[k].hours, time |-> s.headTime]
                                : k \in { j \in DOMAIN r.pool[i].outs : r.pool[i].outs[j].addr = a } } : i \in Live(r, s) }
 
+\* ---- further views: verbose block queries, single-transaction status, pool queries, outputs summary, rich list ----
+CreatorSeq(r, id) == (CHOOSE x \in ChainTxns(r) : \E i \in DOMAIN x.t.outs : x.t.outs[i].id = id).seq
+CreatedRec(r, id) == CHOOSE o \in Created(r) : o.id = id
+\* an input as the verbose queries resolve it: the output it spends, with its hours as of time t
+ExpIn(r, id, t) == LET o == CreatedRec(r, id)
+                   IN [id |-> id, addr |-> o.addr, coins |-> o.coins, hours |-> o.hours,
+                       calc |-> CoinHoursK(o.coins, o.hours, FromNat(r.chain[CreatorSeq(r, id) + 1].time), FromNat(t)).r]
+ExpIns(r, ins, t) == [i \in DOMAIN ins |-> ExpIn(r, ins[i], t)]
+\* a confirmed transaction's inputs are valued at the time of the block BEFORE its own (the head it was judged against)
+ExpVBlock(r, b) == [hash |-> b.hash,
+                    txns |-> [i \in DOMAIN b.txns |-> [hash |-> b.txns[i].hash,
+                                                        ins |-> IF b.seq = 0 THEN << >> ELSE ExpIns(r, b.txns[i].ins, r.chain[b.seq].time)]]]
+ExpVBlocks(r, bs) == [i \in DOMAIN bs |-> ExpVBlock(r, bs[i])]
+PoolHashes(r) == { r.pool[i].hash : i \in DOMAIN r.pool }
+PoolTxn(r, h) == r.pool[CHOOSE i \in DOMAIN r.pool : r.pool[i].hash = h]
+ChainTxn(r, h) == CHOOSE x \in ChainTxns(r) : x.t.hash = h
+StatusOK(r, st) ==
+  LET inPool == st.hash \in PoolHashes(r)
+      inChain == \E x \in ChainTxns(r) : x.t.hash = st.hash
+  IN /\ st.found = (inPool \/ inChain)
+     /\ inPool => /\ ~st.confirmed /\ st.height = 0 /\ st.blockSeq = 0
+                   /\ st.verbose => st.ins = ExpIns(r, PoolTxn(r, st.hash).ins, r.st.headTime)
+     /\ (~inPool /\ inChain) =>
+           LET x == ChainTxn(r, st.hash)
+           IN /\ st.confirmed /\ st.blockSeq = x.seq /\ st.height = r.st.headSeq - x.seq + 1 /\ st.time = r.chain[x.seq + 1].time
+              /\ st.verbose => st.ins = (IF x.seq = 0 THEN << >> ELSE ExpIns(r, x.t.ins, r.chain[x.seq].time))
+CoinsOfAddr(s, a) == SumCoinsOf({ u \in s.unspent : u.addr = a })
+RichOK(rl, s, excluded, locked) ==
+  /\ { rl[i].addr : i \in DOMAIN rl } = { u.addr : u \in s.unspent } \ excluded
+  /\ NoDupSeq([i \in DOMAIN rl |-> rl[i].addr])
+  /\ \A i \in DOMAIN rl : rl[i].coins = CoinsOfAddr(s, rl[i].addr) /\ rl[i].locked = (rl[i].addr \in locked)
+  /\ \A i \in DOMAIN rl : i > 1 => Le(rl[i].coins, rl[i - 1].coins)                 \* richest first
+  /\ \A i \in DOMAIN rl : i > 1 /\ rl[i].coins = rl[i - 1].coins /\ rl[i].locked => rl[i - 1].locked   \* ties: locked first
+
 PagesOK(pg) ==
   LET n == Len(pg.unpaged)
       np == (n + pg.size - 1) \div pg.size
@@ -58,8 +92,10 @@ Reasons(r) ==
       Pred(a) == { u \in Mine(a) : u.id \notin PoolIns(r) } \cup Incoming(r, s, a)
       lastK == IF r.lastN < Len(r.chain) THEN r.lastN ELSE Len(r.chain)
       C(bad, name) == IF bad THEN name ELSE "ok"
+      m == r.more
   IN
   IF Len(r.errs) > 0 THEN [i \in DOMAIN r.errs |-> "C07:query-failed:" \o r.errs[i]]
+  ELSE IF Len(r.more.errs) > 0 THEN [i \in DOMAIN r.more.errs |-> "C07:query-failed:" \o r.more.errs[i]]
   ELSE SelectSeq(<<
     C(Len(r.chain) # r.st.headSeq + 1 \/ \E b \in DOMAIN r.chain : r.chain[b].seq # b - 1, "C07:block-by-seq"),
     C(Ids(s.unspent) # ExpectedUnspentIds(r), "C07:unspent-vs-chain"),
@@ -82,7 +118,30 @@ Reasons(r) ==
       "C07:balance-predicted-of-address-without-confirmed-outputs"),
     C(r.blocksLast # [k \in 1..lastK |-> r.chain[Len(r.chain) - lastK + k].hash], "C07:last-blocks"),
     C(Rng(r.blocksRange) # { r.chain[b].hash : b \in { c \in DOMAIN r.chain : r.chain[c].seq >= r.rangeFrom /\ r.chain[c].seq <= r.rangeTo } }, "C07:blocks-in-range"),
-    C(\E i \in DOMAIN r.paged : ~PagesOK(r.paged[i]), "C29:pages")
+    C(\E i \in DOMAIN r.paged : ~PagesOK(r.paged[i]), "C29:pages"),
+    \* block queries
+    C(m.bySeqs # [i \in DOMAIN m.seqs |-> r.chain[m.seqs[i] + 1].hash], "C07:blocks-by-sequence-list"),
+    C(~m.missingSeqErr, "C07:block-beyond-the-head-answered"),
+    C(m.since # [k \in 1..(IF m.sinceSeq >= r.st.headSeq THEN 0 ELSE IF r.st.headSeq - m.sinceSeq < m.sinceCt THEN r.st.headSeq - m.sinceSeq ELSE m.sinceCt)
+                   |-> r.chain[m.sinceSeq + 1 + k].hash], "C07:blocks-since"),
+    C(m.metaHeadSeq # r.st.headSeq \/ m.metaHeadHash # r.chain[Len(r.chain)].hash, "C07:head-block-query"),
+    C(m.vRange # ExpVBlocks(r, SelectSeq(r.chain, LAMBDA b : b.seq >= m.vFrom /\ b.seq <= m.vTo)), "C07:blocks-in-range-verbose"),
+    C(m.vLast # ExpVBlocks(r, LET k == IF m.vLastN < Len(r.chain) THEN m.vLastN ELSE Len(r.chain) IN SubSeq(r.chain, Len(r.chain) - k + 1, Len(r.chain))),
+      "C07:last-blocks-verbose"),
+    \* transaction history: the status of single transactions
+    C(\E i \in DOMAIN m.status : ~StatusOK(r, m.status[i]), "C07:transaction-status"),
+    \* not views of a listed property (NOTE lines only)
+    C(m.metaUnspents # Cardinality(s.unspent) \/ m.metaPool # Len(r.pool), "X:metadata-counts"),
+    C(Rng(m.validPool) # { e.hash : e \in { f \in Rng(m.poolFlags) : f.valid } } \/ ~NoDupSeq(m.validPool), "X:valid-pool-hashes"),
+    C({ e.hash : e \in Rng(m.poolFlags) } # PoolHashes(r), "X:pool-listing"),
+    C(Rng(m.known) # Rng(m.knownQ) \cap PoolHashes(r) \/ Rng(m.unknown) # Rng(m.knownQ) \ PoolHashes(r), "X:known-unknown-of-pool"),
+    C(m.sumOK /\ (LET keep(a) == m.sumFilter = << >> \/ a \in Rng(m.sumFilter)
+                   IN \/ Rng(m.sumConfirmed) # { u.id : u \in { v \in s.unspent : keep(v.addr) } }
+                      \/ Rng(m.sumOutgoing) # { u.id : u \in { v \in s.unspent : keep(v.addr) /\ \E i \in DOMAIN r.pool : v.id \in Rng(r.pool[i].ins) } }
+                      \/ Rng(m.sumIncoming) # UNION { { r.pool[i].outs[k].id : k \in { j \in DOMAIN r.pool[i].outs : keep(r.pool[i].outs[j].addr) } } : i \in DOMAIN r.pool }),
+      "X:outputs-summary"),
+    C(~m.sumOK /\ \A i \in DOMAIN r.pool : Rng(r.pool[i].ins) \subseteq Ids(s.unspent), "X:outputs-summary-failed-without-a-stale-pending-transaction"),
+    C(m.richOK /\ (~RichOK(m.richAll, s, {}, Rng(m.lockedAddrs)) \/ ~RichOK(m.richNoDist, s, Rng(m.distAddrs), Rng(m.lockedAddrs))), "X:rich-list")
   >>, LAMBDA x : x # "ok")
 
 Conforms == LET xs == Reasons(Recs[l]) IN xs = << >> \/ \A i \in DOMAIN xs : PrintT(<<"MISMATCH", "rec", l, Recs[l].phase, xs[i]>>)
